@@ -137,3 +137,12 @@ def load_known_findings():
             elif line.startswith("fixed:"):
                 fixed.append(line)
     return known, fixed
+
+def load_props():
+    """bin/props/<ID>.json — one file per claimed property."""
+    d = {}
+    pdir = os.path.join(VERIF, "bin", "props")
+    for f in sorted(os.listdir(pdir)):
+        if f.endswith(".json"):
+            d[f[:-5]] = json.load(open(os.path.join(pdir, f)))
+    return d
